@@ -22,3 +22,19 @@ func shortStack() string {
 	}
 	return strings.Join(out, "\n")
 }
+
+// Site names the innermost fx-core function of a recorded stack (for violation signatures).
+func Site(stack string) string {
+	for _, l := range strings.Split(stack, "\n") {
+		if i := strings.Index(l, "fx-core/v8/"); i >= 0 && !strings.Contains(l, ".go:") {
+			f := l[i+len("fx-core/v8/"):]
+			if j := strings.Index(f, "("); j > 0 && !strings.HasPrefix(f[j:], "(*") {
+				f = f[:j]
+			} else if j := strings.LastIndex(f, "("); j > 0 {
+				f = f[:j]
+			}
+			return f
+		}
+	}
+	return "unknown"
+}
